@@ -342,7 +342,10 @@ Init ==
   /\ lastReorg = [b |-> 0, rows |-> 0, strict |-> TRUE]
   /\ hist = <<>>
 
-Seqs(S, k) == [1..k -> S]
+(* contents of the k blocks of a new fork: every combination (exhaustive runs), four patterns (random walks) *)
+ForkContents(k) == IF NoIdle
+                   THEN {[i \in 1..k |-> 0], [i \in 1..k |-> 1], [i \in 1..k |-> i % 2], [i \in 1..k |-> (i + 1) % 2]}
+                   ELSE [1..k -> Contents]
 
 Next ==
   \/ \E fl \in BOOLEAN : DlWait(fl) \/ DlFin(fl) \/ DlLogs(fl) \/ DlHdr(fl) \/ DlEHdr(fl) \/ DrvProcess(fl)
@@ -350,7 +353,7 @@ Next ==
   \/ Deliver \/ DrvTrack \/ Notify \/ DrvReorg \/ RdRemove
   \/ \E c \in Contents : Mine(c)
   \/ Finalize
-  \/ \E b \in 1..N : b <= tip /\ \E cs \in Seqs(Contents, tip - b + 2) : Fork(b, cs)
+  \/ nforks < MaxForks /\ tip < N /\ \E b \in (fin + 1)..tip : \E cs \in ForkContents(tip - b + 2) : Fork(b, cs)
   \/ Restart
 
 Spec == Init /\ [][Next]_vars
